@@ -499,3 +499,39 @@ Proof.
   destruct (Z.ltb_spec 10000000000 b1); destruct (Z.ltb_spec 10000000000 b2);
     destruct (Z.ltb_spec 0 b1); destruct (Z.ltb_spec 0 b2); repeat split; lia.
 Qed.
+
+
+(* ---------- a genuinely fresh client ---------- *)
+Lemma fresh_from_holds l : forall st pw acc,
+  inv st pw -> acc <= phi st -> honoured st pw l -> fresh_from acc (wire_obs l) = true.
+Proof.
+  induction l as [|e l IH]; intros st pw acc Hi Ha Hh; [reflexivity|].
+  destruct Hh as [H1 Hh]. cbn [wire_obs map fresh_from]. fold (wire_obs l).
+  pose proof (step_phi _ _ _ H1) as Hp. pose proof (step_inv _ _ _ Hi H1) as Hi1.
+  apply andb_true_iff. split.
+  - destruct Hi1 as [_ Hb]. unfold phi in *. apply Z.leb_le. lia.
+  - apply (IH _ _ _ Hi1); [lia|exact Hh].
+Qed.
+
+(* every honoured history of a client created at or after the origin of the stamps passes *)
+Lemma fresh_oracle_holds created l :
+  0 <= created -> honoured (fresh created) created l -> C10_fresh_ok (wire_obs l) = true.
+Proof.
+  intros Hc Hh. unfold C10_fresh_ok. apply (fresh_from_holds l (fresh created) created 0).
+  - unfold inv, fresh, threshold. cbn [fs_bad fs_last]. lia.
+  - unfold phi, fresh. cbn [fs_bad fs_last]. lia.
+  - exact Hh.
+Qed.
+
+(* arrival stamps that are late (never early) cannot turn a passing run into an alarm *)
+Lemma fresh_from_late tws : forall mws acc,
+  Forall2 (fun t m => fst t = fst m /\ snd t <= snd m) tws mws ->
+  fresh_from acc tws = true -> fresh_from acc mws = true.
+Proof.
+  induction tws as [|[c w] tws IH]; intros mws acc HF H; inversion HF as [|? [c' w'] ? mws' [Hc Hw] HF']; subst;
+    [reflexivity|].
+  cbn [fst snd] in *. subst c'. cbn [fresh_from] in *.
+  apply andb_true_iff in H as [H1 H2]. apply andb_true_iff. split.
+  - apply Z.leb_le in H1. apply Z.leb_le. lia.
+  - exact (IH _ _ HF' H2).
+Qed.
